@@ -138,6 +138,26 @@ def check_case(ctx, case):
                 extra, missing), case)
     if core.pick(case, 3):
         asm.lifecycle(ctx, case, edit=True)
+    if core.pick(case, 2) and f[0] == "ok":
+        # one input is turned by r, and by r plus two or three whole turns: the same record, hence the same product
+        outs = []
+        for extra in (0, 1):
+            v_, ms_, objs = impl.build_entities(op[3], op[4])
+            oids = sorted(objs)
+            pick_ = oids[len(case["mods"]) % len(oids)]
+            ent = objs[pick_]
+            n_ = len(ent.record.seq)
+            r_ = 1 + n_ % 3
+            turns = (2 + n_ % 2) * extra
+            turned = type(ent)(ent.record >> (turns * n_ + r_))
+            objs[pick_] = turned
+            v2 = turned if v_ is ent else v_
+            ms2 = [turned if m is ent else m for m in ms_]
+            outs.append((asm._outcome(impl.run_asm(op, entities=(v2, ms2, objs))[0]), turns * n_ + r_, pick_))
+        if outs[0][0] != outs[1][0]:
+            ctx.fail("input {} turned by {} and by {} (whole turns more) give different products: {} vs {}".format(
+                outs[0][2], outs[0][1], outs[1][1], outs[0][0][1][:160], outs[1][0][1][:160]), case)
+        ctx.note("whole-turns")
     ctx.note("kept", kept)
     ctx.note("dropped", dropped)
     ctx.case({k: v for k, v in case.items() if k != "meta"}, nontrivial=kept > 0 and dropped > 0)
